@@ -61,7 +61,16 @@ fn build(rng: &mut Rng, flagbits: u64) -> (Simulator, Json) {
     // devices
     if rng.chance(3, 4) { let kb = BufferedKeyboard::default(); kb.get_buffer().write().unwrap().extend((0..rng.usize(6)).map(|_| rng.next() as u8)); sim.device_handler.set_keyboard(kb); if rng.bool() { let _ = sim.write_mem(0xFE00, Word::new_init(0x4000), priv_ctx()); } }
     if rng.chance(3, 4) { sim.device_handler.set_display(BufferedDisplay::default()); }
-    if rng.chance(1, 2) { let lo = rng.below(5) as u32; let mut t = TimerDevice::new(Some(rng.next()), lo..=lo + rng.below(6) as u32, rng.next() as u8, rng.below(10) as u8); t.enabled = true; let ports: Vec<u16> = if rng.bool() { vec![0xFE20] } else { vec![] }; let _ = sim.device_handler.add_device(t, &ports); }
+    if rng.chance(1, 2) { let lo = rng.below(5) as u32; let hi = lo + rng.below(6) as u32; let (tseed, tv, tp) = (rng.next(), rng.next() as u8, rng.below(10) as u8);
+        // every (non-empty) way of giving the range, at construction or by re-configuration afterwards
+        use std::ops::Bound;
+        let form = rng.below(9);
+        let mk = |f: u64| -> TimerDevice { match f {
+            0 | 1 => TimerDevice::new(Some(tseed), lo..=hi, tv, tp), 2 => TimerDevice::new(Some(tseed), lo..hi + 1, tv, tp), 3 => TimerDevice::new(Some(tseed), lo.., tv, tp),
+            4 => TimerDevice::new(Some(tseed), .., tv, tp), 5 => TimerDevice::new(Some(tseed), ..=hi, tv, tp), 6 => TimerDevice::new(Some(tseed), ..hi + 1, tv, tp),
+            7 => TimerDevice::new(Some(tseed), (Bound::Excluded(lo), Bound::Included(hi + 1)), tv, tp), _ => TimerDevice::new(Some(tseed), u32::MAX - hi..=u32::MAX, tv, tp) } };
+        let mut t = if rng.chance(1, 3) { let mut t = mk(0); match form { 3 => { t.set_range(lo..); } 4 => { t.set_range(..); } 5 => { t.set_range(..=hi); } 8 => { t.set_exact(u32::MAX); } _ => { t.set_range(lo..=hi); } } if rng.bool() { t.reset_remaining(); } t } else { mk(form) };
+        t.enabled = true; let ports: Vec<u16> = if rng.bool() { vec![0xFE20] } else { vec![] }; let _ = sim.device_handler.add_device(t, &ports); }
     if rng.chance(1, 2) { let mut r2 = Rng::new(rng.next()); let _ = sim.device_handler.add_device(InterruptFromFn::new(move || if r2.chance(1, 6) { Some(Interrupt::vectored(r2.next() as u8, r2.below(9) as u8)) } else { None }), &[]); }
     if rng.chance(1, 6) { for _ in 0..3 { let a = rng.u16(); sim.breakpoints.insert(lc3_ensemble::sim::debug::Breakpoint::PC(a)); } }
     let d = Json::obj().set("flags", format!("{flags:?}")).set("image", image).set("pc", format!("x{pc:04X}")).set("psr", format!("x{psr:04X}")).set("mapped", format!("{ports:?}")).set("loaded_object", loaded.as_str());
